@@ -62,6 +62,7 @@ CHECKS = {
     },
     "C18": {
         "pkgs": ["./pkg/netceptor"],
+        "schedule_harnesses": ["Verif_C18_close_during_advertisement_pass"],
         "bounds": "one advertisement/withdrawal with arbitrary timestamp, type, tag against a table that holds / does not hold / has seen withdrawn "
                   "the same or another (node, service); two and three messages about one service with distinct timestamps in every delivery order; "
                   "one local advertised listener opened and closed through the real API",
